@@ -6,8 +6,14 @@
 -/
 import PydapModel.Dap4
 import Proofs.Dap4
+import Proofs.DmrOrder
+import Proofs.Dap4Index
+import Proofs.SliceTuple
+import Proofs.Hyperslab
+import Props.C03
+import Proofs.DmrDemo
 namespace Pydap.C10
-open Pydap.Dap4
+open Pydap Pydap.Dap4 Pydap.Dmr Pydap.Dap4Index
 
 /-- the chunk-type field written by a conforming sender is read back flag for flag -/
 theorem C10_chunktype (last error little : Bool) :
@@ -24,14 +30,23 @@ theorem C10_host_order_matters :
     decodeChunkType false (flagsByte true false false) = ⟨false, false, true⟩ := by decide
 
 /-- **Chunk reassembly**: for every payload and every partition of it into chunks of fewer than 2^24
-    bytes (empty chunks allowed, any number of chunks, either byte-order flag), with the `last` flag on
+    bytes (empty chunks allowed, at least one chunk, either byte-order flag), with the `last` flag on
     the final chunk, `stream2bytearray` returns the payload; bytes after the final chunk are ignored. -/
 theorem C10_dechunk (little : Bool) (payload : Bytes) (chunks : List Bytes) (junk : Bytes)
     (hpart : chunks.flatten = payload) (hsize : ∀ c ∈ chunks, c.length < 2 ^ 24)
-    (hjunk : chunks = [] → junk = []) :
+    (hne : chunks ≠ []) :
     stream2bytearray true (chunkEncode little chunks ++ junk) = .ok payload := by
   rw [← hpart]
-  exact stream2bytearray_encode little chunks hsize junk hjunk
+  exact stream2bytearray_encode little chunks hsize junk hne
+
+set_option maxRecDepth 100000 in
+/-- since fix 72d8e7c a stream that ends early is refused instead of being decoded to a shorter payload:
+    no data at all, a header cut short, a body cut short, no chunk flagged `last` -/
+theorem C10_truncated_refused :
+    stream2bytearray true [] = .error .eofError
+    ∧ stream2bytearray true [4, 0, 0] = .error .eofError
+    ∧ stream2bytearray true [5, 0, 0, 2, 7] = .error .eofError
+    ∧ stream2bytearray true [4, 0, 0, 1, 7] = .error .eofError := ⟨rfl, rfl, rfl, rfl⟩
 
 /-- **Byte order**: an item of any width `w` (1, 2, 4, 8 in DAP4) written in either byte order and
     read with the same flag is the value written -/
@@ -52,23 +67,158 @@ theorem C10_decode_layout (little : Bool) (ss : List Sent) (h : ∀ s ∈ ss, Se
 
 /-- **Whole response**: DMR chunk + any chunking of the serialised variables, either byte order: the
     client recovers the DMR text, the byte order and every value, provided the variables are visited in
-    the order they were serialised (`layoutsOf dmr`; see `C10_decode_order` for that order). -/
-theorem C10_response (little : Bool) (layoutsOf : Bytes → Except Err (List Layout))
+    the order they were serialised (`layoutsOf dmr`; `C10_decode_order` proves that order,
+    `C10_response_document_order` composes the two). -/
+theorem C10_response (little : Bool) (layoutsOf : Bytes → Except Dap4.Err (List Layout))
     (dmr : Bytes) (ss : List Sent) (chunks : List Bytes)
     (hd : dmr.length < 2 ^ 24) (hl : layoutsOf dmr = .ok (ss.map Sent.layout))
-    (hs : ∀ s ∈ ss, SentOk s) (hc : ∀ c ∈ chunks, c.length < 2 ^ 24)
+    (hs : ∀ s ∈ ss, SentOk s) (hc : ∀ c ∈ chunks, c.length < 2 ^ 24) (hne : chunks ≠ [])
     (hp : chunks.flatten = serialise little ss) :
     unpackResponse true layoutsOf (encodeResponse little dmr chunks)
       = .ok (dmr, little, ss.map fun s => ⟨s.values, some (swapped little s.checksum)⟩) :=
-  unpackResponse_encode little layoutsOf dmr ss chunks hd hl hs hc hp
+  unpackResponse_encode little layoutsOf dmr ss chunks hd hl hs hc hne hp
+
+/-- **Decode order = document order**: for every abstract DMR spec — groups nested to any depth, variables and
+    groups interleaved in any order (a variable declared after a sibling group included) — that is locally well
+    formed, whose `Dim` references resolve, and in which no two declarations (groups, variables; dimensions) share
+    a full path: the order in which `unpack_dap4_data` consumes the variables (`walk` order of the dataset tree
+    assembled by `dmr_to_dataset`, groups created first, re-sorted by position in `get_variables`) is exactly
+    the order in which the document declares them, and the variables met are exactly the declared ones with
+    their declared types and shapes (`expectVars`, the right-hand side of `C11_parse`). -/
+theorem C10_decode_order (pre : List (Str × Str)) (name : Str) (s : Spec)
+    (hok : s.ok) (hres : refsResolve s) (hn : distinctNodes s) (hd : distinctDims s) :
+    decodeOrder (renderRoot pre name s) = .ok (expectVars s) :=
+  decodeOrder_render pre name s hok hres hn hd
+
+/-- the dataset tree loses and duplicates nothing: `walk` meets every declared variable exactly once
+    (in another order: the members of a group come before the variables declared ahead of it) -/
+theorem C10_walk_complete (pre : List (Str × Str)) (name : Str) (s : Spec)
+    (hok : s.ok) (hres : refsResolve s) (hn : distinctNodes s) (hd : distinctDims s) :
+    ∃ ws, datasetWalk (renderRoot pre name s) = .ok ws ∧ ws.Perm (expectVars s) :=
+  datasetWalk_perm pre name s hok hres hn hd
+
+/-- … and the re-sorting is needed: with a variable declared ahead of a group, `walk` order is not document order -/
+theorem C10_walk_is_not_document_order :
+    (datasetWalk (renderRoot [] "d".toList
+      (.var ⟨"Int8".toList, "a".toList, [], [], []⟩ (.group "g".toList (.var ⟨"Int8".toList, "b".toList, [], [], []⟩ .nil) .nil)))).map
+        (·.map (·.key)) = .ok ["/g/b".toList, "a".toList] := by rfl
+
+/-- `get_count` / `decode_variable` need the element count and the item size of a parsed variable -/
+def recLayout (itemsize : VarRec → Nat) (r : VarRec) : Layout :=
+  ⟨r.shape.foldl (fun a n => a * n.toNat) 1, itemsize r⟩
+
+/-- **Whole response, order included**: the DMR chunk of a response declares `s` (ElementTree, `tree`, is
+    trusted for text → element tree); the sender serialised one item list per declared variable, in document order
+    (`ss` matches `expectVars s` in count and item size). Then for any chunking and either byte order the client
+    recovers every variable's values — each value list is cut from the offset its declaration implies. -/
+theorem C10_response_document_order (little : Bool) (tree : Bytes → XNode) (itemsize : VarRec → Nat)
+    (dmr : Bytes) (pre : List (Str × Str)) (name : Str) (s : Spec) (ss : List Sent) (chunks : List Bytes)
+    (htree : tree dmr = renderRoot pre name s)
+    (hok : s.ok) (hres : refsResolve s) (hn : distinctNodes s) (hdims : distinctDims s)
+    (hss : ss.map Sent.layout = (expectVars s).map (recLayout itemsize))
+    (hd : dmr.length < 2 ^ 24) (hs : ∀ x ∈ ss, SentOk x) (hc : ∀ c ∈ chunks, c.length < 2 ^ 24)
+    (hne : chunks ≠ []) (hp : chunks.flatten = serialise little ss) :
+    unpackResponse true
+        (fun b => match decodeOrder (tree b) with
+          | .ok rs => .ok (rs.map (recLayout itemsize))
+          | .error _ => .error .keyError)
+        (encodeResponse little dmr chunks)
+      = .ok (dmr, little, ss.map fun x => ⟨x.values, some (swapped little x.checksum)⟩) := by
+  apply C10_response little _ dmr ss chunks hd _ hs hc hne hp
+  simp only [htree, C10_decode_order pre name s hok hres hn hdims, hss]
+
+/-! ### indexing: the request `BaseProxyDap4.__getitem__` builds -/
+
+/-- **Index → per-axis slices**: for an index without Ellipsis of at most `rank` entries the request carries, axis
+    by axis, numpy's expansion of the index (missing axes = whole axis), normalised by `fix_slice` and composed
+    with the proxy's default slice -/
+theorem C10_index_slices (idx : List Idx) (shape : List Nat) (h : NoEll idx) (hl : idx.length ≤ shape.length) :
+    proxy4Slices shape idx
+      = List.zipWith (fun (N : Nat) e => combine1 PSlice.all (toSlice (fixAxis N e))) shape
+          (npExpand idx none shape.length) := by
+  unfold proxy4Slices
+  rw [fixSlice_noEll idx shape h hl]
+  exact combine_zipFix _ shape (npExpand_length_none idx _ hl)
+
+/-- … and with one Ellipsis: the entries after it address the last axes -/
+theorem C10_index_slices_ellipsis (pre post : List Idx) (shape : List Nat) (h1 : NoEll pre) (h2 : NoEll post)
+    (hl : pre.length + post.length ≤ shape.length) :
+    proxy4Slices shape (pre ++ Idx.ell :: post)
+      = List.zipWith (fun (N : Nat) e => combine1 PSlice.all (toSlice (fixAxis N e))) shape
+          (npExpand pre (some post) shape.length) := by
+  unfold proxy4Slices
+  rw [fixSlice_ell pre post shape h1 h2 hl]
+  exact combine_zipFix _ shape (npExpand_length_some pre post _ hl)
+
+/-- **One axis, slice**: the slice requested for `x[s]` on an axis of extent `N` (bounds ≥ −N, step ≥ 1: numpy's
+    domain for basic slices) selects exactly the positions numpy selects -/
+theorem C10_index_axis (N : Nat) (s : PSlice)
+    (hstart : ∀ i, s.start = some i → -(N : Int) ≤ i) (hstop : ∀ j, s.stop = some j → -(N : Int) ≤ j)
+    (hstep : ∀ k, s.step = some k → 1 ≤ k) :
+    sel N (combine1 PSlice.all (toSlice (fixAxis N (Idx.sl s)))) = sel N s := by
+  have hn : NonNegSl (fixSl N s) := Pydap.C03.C03_fix_normalised N s hstart hstop hstep
+  show sel N (combine1 PSlice.all (fixSl N s)) = sel N s
+  rw [combine_all_sel N _ hn, fix_preserves N s hstart hstop hstep]
+
+/-- **One axis, integer**: `x[i]` (−N ≤ i < N) requests exactly numpy's element -/
+theorem C10_index_axis_int (N : Nat) (i : Int) (m : Nat) (h : selInt N i = some m) :
+    sel N (combine1 PSlice.all (toSlice (fixAxis N (Idx.int i)))) = [m] := by
+  have hm : m < N := by
+    unfold selInt at h
+    split at h
+    · simp at h; omega
+    · split at h
+      · simp at h; omega
+      · cases h
+  rw [Pydap.C03.C03_fix_int N i m h]
+  show sel N (combine1 PSlice.all ⟨some (m : Int), some ((m : Int) + 1), none⟩) = [m]
+  rw [combine_all_sel N _ ⟨by intro a e; cases e; omega, by intro a e; cases e; omega, by intro a e; cases e⟩]
+  exact sel_point N m hm
+
+/-- **Request text**: `"dap4.ce=" + id + hyperslab`; a server that parses the hyperslab reads back exactly the
+    slices computed above (non-empty selections: normalised slices) -/
+theorem C10_index_request (id : List Char) (shape : List Nat) (idx : List Idx)
+    (h : ∀ s ∈ proxy4Slices shape idx, NormSl s) :
+    proxy4Request id shape idx = "dap4.ce=".toList ++ id ++ hyperslabText (proxy4Slices shape idx)
+    ∧ parseHyperslab (hyperslabText (proxy4Slices shape idx)) = .ok (proxy4Slices shape idx) :=
+  ⟨rfl, parseHyperslab_hyperslabText _ h⟩
 
 /-! ### non-vacuity -/
 
+set_option maxRecDepth 100000 in
 example : stream2bytearray true (chunkEncode true [[1, 2], [], [3]]) = .ok [1, 2, 3] := by rfl
 example : chunkEncode false [[1, 2], [3]] = [0, 0, 0, 2, 1, 2, 1, 0, 0, 1, 3] := by decide
 example : SentOk ⟨2, [1, 65535], 7⟩ := ⟨by decide, by decide⟩
 example : unpackVars false [⟨2, 2⟩] (serialise false [⟨2, [1, 65535], 7⟩])
     = .ok [⟨[1, 65535], some 117440512⟩] := by rfl
 example : serialise true [⟨2, [1, 65535], 7⟩] = [1, 0, 255, 255, 7, 0, 0, 0] := by decide
+
+example : distinctNodes demo := by unfold distinctNodes; decide
+example : decodeOrder (renderRoot [] "ds".toList demo) = .ok (expectVars demo) :=
+  C10_decode_order [] _ _ demo_ok demo_refs (by unfold distinctNodes; decide)
+    (by unfold distinctDims; decide)
+
+/-- the hypotheses of `C10_response_document_order` are satisfiable: two variables (one ahead of a group, one in
+    it), little-endian, the body cut into three chunks -/
+example :
+    unpackResponse true
+        (fun b => match decodeOrder ((fun _ => renderRoot [] "d".toList tiny) b) with
+          | .ok rs => .ok (rs.map (recLayout fun r => if r.dtype = ">i2".toList then 2 else 1))
+          | .error _ => .error .keyError)
+        (encodeResponse true [60, 62] [[5, 7, 0], [0, 0, 1, 0, 2], [0, 9, 0, 0, 0]])
+      = .ok ([60, 62], true, [⟨[5], some (swapped true 7)⟩, ⟨[1, 2], some (swapped true 9)⟩]) :=
+  C10_response_document_order true (fun _ => renderRoot [] "d".toList tiny) _ [60, 62] [] "d".toList tiny
+    [⟨1, [5], 7⟩, ⟨2, [1, 2], 9⟩] _ rfl tiny_ok tiny_refs (by unfold distinctNodes; decide) (by unfold distinctDims; decide)
+    (by decide) (by decide)
+    (by intro x hx; simp at hx; rcases hx with rfl | rfl <;> exact ⟨by decide, by decide⟩)
+    (by decide) (by simp) (by decide)
+
+example : ∀ s ∈ proxy4Slices [5] [Idx.sl ⟨some 1, some 4, some 2⟩], NormSl s := by
+  have e : proxy4Slices [5] [Idx.sl ⟨some 1, some 4, some 2⟩] = [⟨some 1, some 4, some 2⟩] := by
+    simp [proxy4Slices, fixSlice, expandEll, zipFix, fixAxis, fixSl, combine, combine1, toSlice, orElse, PSlice.all]
+  intro s hs
+  rw [e] at hs
+  exact ⟨1, 4, 2, by simpa using hs, by decide, by decide, by decide⟩
+example : selInt 5 (-2) = some 3 := by decide
 
 end Pydap.C10
